@@ -26,9 +26,22 @@ import (
 //	make:               fresh container
 type ProvSet map[string]bool
 
+// Has reports whether the item was established inside the function itself.
 func (s ProvSet) Has(item string) bool { return s[item] }
 
-// HasPrefix reports whether any item starts with prefix.
+// HasX additionally accepts items imported across a call boundary ("~" items:
+// what the in-module callers pass for a parameter, what a callee's result
+// derives from). Matchers that describe the CLASS of an operand ("decoded
+// data", "the fresh nonce", "a field of the decoded payload") opt into HasX so
+// that a check moved into a helper, or a value computed by a helper, keeps its
+// class; matchers that identify a particular object or exclude a class stay
+// with Has.
+func (s ProvSet) HasX(item string) bool { return s[item] || s["~"+item] }
+
+// HasLocal is Has (kept for readability at call sites that exclude a class).
+func (s ProvSet) HasLocal(item string) bool { return s[item] }
+
+// HasPrefix reports whether a local item starts with prefix.
 func (s ProvSet) HasPrefix(prefix string) bool {
 	for k := range s {
 		if strings.HasPrefix(k, prefix) {
@@ -37,6 +50,19 @@ func (s ProvSet) HasPrefix(prefix string) bool {
 	}
 	return false
 }
+
+// HasPrefixX: a local or imported item starts with prefix.
+func (s ProvSet) HasPrefixX(prefix string) bool {
+	for k := range s {
+		if strings.HasPrefix(k, prefix) || (strings.HasPrefix(k, "~") && strings.HasPrefix(k[1:], prefix)) {
+			return true
+		}
+	}
+	return false
+}
+
+// HasPrefixLocal is HasPrefix.
+func (s ProvSet) HasPrefixLocal(prefix string) bool { return s.HasPrefix(prefix) }
 
 func (s ProvSet) List() []string {
 	var l []string
@@ -193,10 +219,18 @@ func (pc *provCache) compute(v ssa.Value) ProvSet {
 		for i, p := range x.Parent().Params {
 			if p == x {
 				s["param:"+itoa(i)] = true
+				// what the in-module callers pass (so that a check extracted
+				// into a helper still sees the class of its operands)
+				s.addAll(pc.p.paramCtx(x.Parent(), i))
 			}
 		}
 	case *ssa.FreeVar:
 		s["freevar:"+x.Name()] = true
+		for i, fv := range x.Parent().FreeVars {
+			if fv == x {
+				s.addAll(pc.p.freeVarCtx(x.Parent(), i))
+			}
+		}
 	case *ssa.Global:
 		s["global:"+pkgShort(x.Pkg.Pkg.Path())+"."+x.Name()] = true
 	case *ssa.Function:
@@ -549,13 +583,113 @@ func (p *Prog) retVia(fn *ssa.Function) ProvSet {
 				switch {
 				case strings.HasPrefix(k, "call:"):
 					out["via:"+strings.TrimPrefix(k, "call:")] = true
-				case strings.HasPrefix(k, "via:"):
+					out["~"+k] = true // a value computed in a helper still derives from that call
+				case strings.HasPrefix(k, "via:"), strings.HasPrefix(k, "~"):
 					out[k] = true
+				case strings.HasPrefix(k, "field:"), strings.HasPrefix(k, "decoded:"), strings.HasPrefix(k, "fresh:"), strings.HasPrefix(k, "global:"), strings.HasPrefix(k, "out:"), strings.HasPrefix(k, "key:"):
+					out["~"+k] = true
 				}
 			}
 		}
 	}
 	delete(p.viaBusy, fn)
 	p.viaMemo[fn] = out
+	return out
+}
+
+// importable: provenance items that keep their meaning across a call boundary.
+func importable(k string) bool {
+	k = strings.TrimPrefix(k, "~")
+	for _, pre := range []string{"param:", "freevar:", "make:", "func:"} {
+		if strings.HasPrefix(k, pre) {
+			return false
+		}
+	}
+	return true
+}
+
+// paramCtx: union of the provenance of the arguments the in-module call sites
+// pass for parameter i of fn (context-insensitive; function-local items dropped).
+func (p *Prog) paramCtx(fn *ssa.Function, i int) ProvSet {
+	type key struct {
+		fn *ssa.Function
+		i  int
+	}
+	if p.ctxMemo == nil {
+		p.ctxMemo = map[any]ProvSet{}
+		p.ctxBusy = map[any]bool{}
+	}
+	k := key{fn, i}
+	if s, ok := p.ctxMemo[k]; ok {
+		return s
+	}
+	if p.ctxBusy[k] || len(p.ctxBusy) > 12 {
+		p.ctxCut = true
+		return ProvSet{}
+	}
+	p.ctxBusy[k] = true
+	outer := len(p.ctxBusy) == 1
+	if outer {
+		p.ctxCut = false
+	}
+	out := ProvSet{}
+	for _, ed := range p.CallGraph().in[fn] {
+		call, ok := ed.Site.(ssa.CallInstruction)
+		if !ok || ed.Kind == "closure" || ed.Kind == "funcvalue" || ed.Kind == "codec" || isHarnessPkg(funcPkgPath(ed.Caller)) {
+			continue
+		}
+		ops := callOperands(call.Common())
+		if i >= len(ops) {
+			continue
+		}
+		for it := range p.matcher(ed.Caller).Prov(ops[i]) {
+			if importable(it) {
+				out["~"+strings.TrimPrefix(it, "~")] = true
+			}
+		}
+	}
+	delete(p.ctxBusy, k)
+	if !p.ctxCut || outer {
+		p.ctxMemo[k] = out
+	}
+	return out
+}
+
+// freeVarCtx: provenance of what the creating MakeClosure binds to free variable i.
+func (p *Prog) freeVarCtx(fn *ssa.Function, i int) ProvSet {
+	type key struct {
+		fn *ssa.Function
+		i  int
+		fv bool
+	}
+	if p.ctxMemo == nil {
+		p.ctxMemo = map[any]ProvSet{}
+		p.ctxBusy = map[any]bool{}
+	}
+	k := key{fn, i, true}
+	if s, ok := p.ctxMemo[k]; ok {
+		return s
+	}
+	if p.ctxBusy[k] || len(p.ctxBusy) > 12 {
+		p.ctxCut = true
+		return ProvSet{}
+	}
+	p.ctxBusy[k] = true
+	out := ProvSet{}
+	for _, ed := range p.CallGraph().in[fn] {
+		mc, ok := ed.Site.(*ssa.MakeClosure)
+		if !ok || i >= len(mc.Bindings) || isHarnessPkg(funcPkgPath(ed.Caller)) {
+			continue
+		}
+		for it := range p.matcher(ed.Caller).Prov(mc.Bindings[i]) {
+			if importable(it) {
+				out["~"+strings.TrimPrefix(it, "~")] = true
+			}
+		}
+	}
+	delete(p.ctxBusy, k)
+	if !p.ctxCut {
+		p.ctxMemo[k] = out
+	}
 	return out
 }
